@@ -38,16 +38,18 @@ def recvAll {W WC} (ci : Cipher W WC) (r : RecvFmt) : List (Frame W) → RecvFmt
 theorem sender_emits {W WC} (ci : Cipher W WC) (c : Ctx) (ssrc : Nat) (jps : List (Nat × Bytes))
     (h : FitsAll (c.state ssrc) (jps.map (·.1))) :
     ∃ c', sendAll ci (some c) ssrc jps = some (some c', jps.map (frameOf ci c.key c.mki ssrc)) ∧
-      c'.key = c.key ∧ c'.mki = c.mki ∧ c'.ssrcs = c.ssrcs ∧ ∀ s2, s2 ≠ ssrc → c'.state s2 = c.state s2 := by
+      c'.key = c.key ∧ c'.mki = c.mki ∧ c'.ssrcs = c.ssrcs ∧ (∀ s2, s2 ≠ ssrc → c'.state s2 = c.state s2) ∧
+      c'.state ssrc = (jps.map (·.1)).foldl advance (c.state ssrc) := by
   induction jps generalizing c with
-  | nil => exact ⟨c, rfl, rfl, rfl, rfl, fun _ _ => rfl⟩
+  | nil => exact ⟨c, rfl, rfl, rfl, rfl, fun _ _ => rfl, rfl⟩
   | cons jp rest ih =>
     obtain ⟨hf, hrest⟩ := h
     obtain ⟨c1, e1, k1, m1, s1, _, st1, o1⟩ := encrypt_fits ci c ssrc jp.1 jp.2 hf
     rw [← st1] at hrest
-    obtain ⟨c2, e2, k2, m2, s2, o2⟩ := ih c1 hrest
-    refine ⟨c2, ?_, k2.trans k1, m2.trans m1, s2.trans s1, fun x hx => (o2 x hx).trans (o1 x hx)⟩
-    simp only [sendAll, writeRTP, e1, e2, List.map_cons, k1, m1, frameOf]
+    obtain ⟨c2, e2, k2, m2, s2, o2, f2⟩ := ih c1 hrest
+    refine ⟨c2, ?_, k2.trans k1, m2.trans m1, s2.trans s1, fun x hx => (o2 x hx).trans (o1 x hx), ?_⟩
+    · simp only [sendAll, writeRTP, e1, e2, List.map_cons, k1, m1, frameOf]
+    · rw [f2, st1]; rfl
 
 theorem receiver_delivers {W WC} (ci : Cipher W WC)
     (hDE : ∀ k m s r q p, ci.D k m s r q (ci.E k m s r q p) = some p)
@@ -80,6 +82,32 @@ theorem fitsAll_consecutive (s : SsrcState) (j n : Nat) (h : Fits s j) (hb : j +
       intro a _; omega
     rw [e]
     refine ⟨h, ih (advance s j) (j + 1) (fits_succ s j h (by omega)) (by omega)⟩
+
+/-- a sender that moves forward: after `n ≥ 1` consecutive packets from `j0` its state holds `j0+n-1` -/
+theorem foldl_advance_consecutive (s : SsrcState) (j n : Nat) (hfw : s.processed = true → s.index ≤ j) :
+    ((List.range (n + 1)).map (j + ·)).foldl advance s = { index := j + n, processed := true } := by
+  induction n generalizing s j with
+  | zero =>
+    have e : ((List.range (0 + 1)).map (j + ·)) = [j] := by simp
+    rw [e]
+    simp only [List.foldl_cons, List.foldl_nil, advance, Nat.add_zero]
+    cases hp : s.processed with
+    | false => simp
+    | true => simp [Nat.max_eq_right (hfw hp)]
+  | succ n ih =>
+    have e : (List.range (n + 1 + 1)).map (j + ·) = j :: (List.range (n + 1)).map (j + 1 + ·) := by
+      rw [List.range_succ_eq_map]
+      simp [List.map_map, Function.comp_def]
+      intro a _; omega
+    rw [e, List.foldl_cons]
+    have h1 : (advance s j).processed = true → (advance s j).index ≤ j + 1 := by
+      intro _
+      simp only [advance]
+      cases hp : s.processed with
+      | false => simp
+      | true => simp [Nat.max_eq_right (hfw hp)]
+    rw [ih (advance s j) (j + 1) h1]
+    congr 1; omega
 
 end Rtsp.Sec
 
